@@ -65,11 +65,11 @@ def mirror_job(pre_filled, spec_text, mirror, name="mirror_layout"):
                note="C mirror structs used in the contracts have the same field offsets and stride as CBMC's layout of the C++ prelude classes")
 
 
-def fill(pre, position=None, uposition=None, slack=None, solver_extra="", inc_extra=""):
+def fill(pre, position=None, uposition=None, slack=None, solver_extra="", inc_extra="", block_extra=""):
     return (pre.replace("@SLICE:Variable::position@", position)
                .replace("@SLICE:Variable::unscaledPosition@", uposition)
                .replace("@SLICE:Constraint::slack@", slack)
-               .replace("@SOLVER_EXTRA@", solver_extra).replace("@INCSOLVER_EXTRA@", inc_extra))
+               .replace("@BLOCK_EXTRA@", block_extra).replace("@SOLVER_EXTRA@", solver_extra).replace("@INCSOLVER_EXTRA@", inc_extra))
 
 
 def struct_cast(fields_c, ptr="this"):
